@@ -52,11 +52,12 @@ class StorageBackend(ABC):
         """Read file contents as bytes"""
         pass
 
-    def make_durable(self, path: str) -> None:
+    def make_durable(self, path: str, synced_dirs: Optional[set] = None) -> None:
         """Make an EXISTING file written by somebody else durable: flush its
         content and persist its directory entry (and those of the directories
-        leading to it). Object stores acknowledge only durable writes, so the
-        default does nothing."""
+        leading to it). `synced_dirs` lets a caller registering many files skip
+        directories it has already synced. Object stores acknowledge only
+        durable writes, so the default does nothing."""
         return None
 
     def open_seekable(self, path: str) -> Any:
@@ -234,7 +235,7 @@ class LocalStorageBackend(StorageBackend):
         """Local files are already seekable; nothing to wrap."""
         return open(self._resolve_path(path), "rb")
 
-    def make_durable(self, path: str) -> None:
+    def make_durable(self, path: str, synced_dirs: Optional[set] = None) -> None:
         """fsync an existing file and every directory from its parent up to the
         table root (files this backend writes itself get the same treatment in
         write_file / DataFileWriter.close)."""
@@ -247,15 +248,20 @@ class LocalStorageBackend(StorageBackend):
         root = self._real_base_path()
         directory = os.path.dirname(full_path)
         while True:
-            try:
-                dir_fd = os.open(directory, os.O_RDONLY)
+            # (every file of one append_files() call exists before the call
+            # starts, so one sync per directory persists all their entries)
+            if synced_dirs is None or directory not in synced_dirs:
                 try:
-                    os.fsync(dir_fd)
-                finally:
-                    os.close(dir_fd)
-            except (OSError, AttributeError):
-                # Some filesystems/OSes don't support directory fsync
-                pass
+                    dir_fd = os.open(directory, os.O_RDONLY)
+                    try:
+                        os.fsync(dir_fd)
+                    finally:
+                        os.close(dir_fd)
+                except (OSError, AttributeError):
+                    # Some filesystems/OSes don't support directory fsync
+                    pass
+                if synced_dirs is not None:
+                    synced_dirs.add(directory)
             if directory == root or len(directory) <= len(root):
                 break
             directory = os.path.dirname(directory)
